@@ -15,6 +15,7 @@ The expectation is always TLC's; Python renders datasets, projects results and c
 from __future__ import annotations
 
 import json
+import os
 import random
 import shutil
 
@@ -48,31 +49,52 @@ def _check_tlc(res, what):
         raise core.MachineryError(f"{what}: invariant {res.violated} of the reference violated:\n" + "\n".join(res.trace[-2:])[:3000])
 
 
+def _tlc(what, consts, workers, tag, **kw):
+    d = _cfg("c14" + tag, **consts)   # one scratch directory per concurrent job
+    try:
+        for attempt in (1, 2):  # a JVM that dies at start-up on an overloaded machine is retried once
+            res = core.run_tlc(SPEC / "EventWalk.tla", d / "EventWalk.cfg", workers=workers, heap="4g", **kw)
+            if not res.error or res.violated or "timed out" in res.error:
+                break
+    finally:
+        shutil.rmtree(d, ignore_errors=True)
+    _check_tlc(res, what)
+    return res
+
+
 def tlc_cases(tier, seed, v):
-    """exhaustive run (all invariants, all actions) + simulated longer datasets; returns the emitted cases"""
+    """exhaustive run (all invariants, all actions) + simulated longer datasets, run side by side; returns the emitted cases"""
+    from concurrent.futures import ThreadPoolExecutor
+
     ex = {"quick": dict(MaxLen=2, Profile=1, EmitMod=3), "thorough": dict(MaxLen=3, Profile=2, EmitMod=150)}[tier]
-    d = _cfg("c14ex", EmitSel=seed % ex["EmitMod"], **ex)
-    res = core.run_tlc(SPEC / "EventWalk.tla", d / "EventWalk.cfg", workers=16, timeout=3400)
-    shutil.rmtree(d, ignore_errors=True)
-    _check_tlc(res, "EventWalk.tla exhaustive")
+    sims = {"quick": [(4, 190), (6, 290)], "thorough": [(4, 1600), (6, 3800), (8, 3800)]}[tier]   # (MaxLen, behaviours per worker)
+    simw = 5
+
+    def job_ex():
+        return _tlc("EventWalk.tla exhaustive", dict(EmitSel=seed % ex["EmitMod"], **ex), 8 if tier == "quick" else 12, "ex", timeout=3400)
+
+    def job_sim(i):
+        maxlen, num = sims[i]
+        return _tlc(f"EventWalk.tla simulate MaxLen={maxlen}", dict(MaxLen=maxlen, Profile=2, EmitMod=1, EmitSel=0), simw, f"sim{i}", timeout=1700,
+                    simulate=f"num={num}", depth=14 * maxlen + 12, seed=seed * 7 + i + 1, coverage=False)
+
+    with ThreadPoolExecutor(max_workers=3) as pool:
+        fex = pool.submit(job_ex)
+        fsim = [pool.submit(job_sim, i) for i in range(len(sims))]
+        res = fex.result()
+        simres = [f.result() for f in fsim]
     core.require_actions(res, ACTIONS, "EventWalk.tla")
     core.tlc_stats_into(v, res)
     cases = [c for t, c in res.prints if t == "CASE"]
     n_ex = len(cases)
-    sims = {"quick": [(4, 60), (6, 90)], "thorough": [(4, 500), (6, 1200), (8, 1200)]}[tier]
     sim_states = 0
-    for i, (maxlen, num) in enumerate(sims):
-        d = _cfg("c14sim", MaxLen=maxlen, Profile=2, EmitMod=1, EmitSel=0)
-        r2 = core.run_tlc(SPEC / "EventWalk.tla", d / "EventWalk.cfg", workers=16, timeout=1700, simulate=f"num={num}",
-                          depth=14 * maxlen + 12, seed=seed * 7 + i + 1, coverage=False)
-        shutil.rmtree(d, ignore_errors=True)
-        _check_tlc(r2, f"EventWalk.tla simulate MaxLen={maxlen}")
+    for r2 in simres:
         sim_states += r2.generated
         cases += [c for t, c in r2.prints if t == "CASE"]
     v.add_coverage(states=sim_states, transitions=sim_states)
     v.add_coverage(tlc_exhaustive={"constants": ex, "distinct_states": res.distinct, "depth": res.depth, "wall_s": round(res.wall, 1),
                                    "cases_emitted": n_ex},
-                   tlc_simulation={"runs": [{"MaxLen": m, "num_per_worker": n} for m, n in sims], "states": sim_states,
+                   tlc_simulation={"runs": [{"MaxLen": m, "behaviours": n * simw} for m, n in sims], "states": sim_states,
                                    "cases_emitted": len(cases) - n_ex})
     if not cases:
         raise core.MachineryError("EventWalk.tla emitted no cases")
@@ -502,7 +524,7 @@ def run(tier, seed, v, cases):
         base_model(b)
     rng = random.Random(seed)
     groups = group_cases(cases)
-    budget = {"quick": 1200, "thorough": 24000}[tier]
+    budget = int({"quick": 1200, "thorough": 20000}[tier] * float(os.environ.get("VERIF_BUDGET_SCALE", "1")))
     rng.shuffle(groups)
     # one eighth of the budget for the exhaustively enumerated short datasets, the rest for the longer (simulated)
     # ones: they carry the interactions
@@ -557,7 +579,7 @@ def main(tier: str, seed: int) -> int:
     ]
     cases = tlc_cases(tier, seed, v)
     run(tier, seed, v, cases)
-    return v.finish(min_traces={"quick": 500, "thorough": 5000}[tier])
+    return v.finish(min_traces=int({"quick": 500, "thorough": 5000}[tier] * min(1.0, float(os.environ.get("VERIF_BUDGET_SCALE", "1")))))
 
 
 def replay(path: str) -> int:
